@@ -504,7 +504,17 @@ def dse_run(spec, backend, strat, inp):
     jp.setup(jit, code, regs=start_regs(inp, spec), data=data_page(inp, spec))
     jit.init_run(CODE)
     _mn()
-    dse = DSEPathConstraint(_st["machine"], jit.lifter.loc_db, produce_solution=STRATS[strat])
+    if "dse_cls" not in _st:
+        class RecordingDSE(DSEPathConstraint):
+            """handle_solution is the documented extension point: also keep the assertions the model was asked for."""
+            def handle_solution(self, model, destination):
+                if not hasattr(self, "asked"):
+                    self.asked = {}
+                self.asked[self._key_for_solution_strategy(destination)] = list(self.cur_solver.assertions())
+                return super(RecordingDSE, self).handle_solution(model, destination)
+        _st["dse_cls"] = RecordingDSE
+    dse = _st["dse_cls"](_st["machine"], jit.lifter.loc_db, produce_solution=STRATS[strat])
+    dse.asked = {}
     dse.attach(jit)
     dse.update_state_from_concrete()
     if mode == "reg":
@@ -615,8 +625,24 @@ def skeleton(spec):
     return "%s/%s/%s" % (kind, mode, "-".join(parts))
 
 
-def check_one(spec, backend, strat, inp):
-    """One (program, backend, strategy, initial input). Returns (violations, info)."""
+def accepts(assertions, spec, value):
+    """Do the solver's assertions hold for the concrete input @value?  Closed-term folding only: the input symbols are
+    replaced by constants and the term is simplified; anything that does not fold to true counts as "no"."""
+    import z3
+    buf = spec_buf(spec)
+    if buf is None:
+        pairs = [(z3.BitVec("INPUT", 32), z3.BitVecVal(value, 32))]
+    else:
+        pairs = [(z3.BitVec("MEM_0x%x" % (buf[0] + i), 8), z3.BitVecVal((value >> (8 * i)) & 0xFF, 8)) for i in range(buf[1])]
+    return all(z3.is_true(z3.simplify(z3.substitute(a, *pairs))) for a in assertions)
+
+
+def check_one(spec, backend, strat, inp, probe=None):
+    """One (program, backend, strategy, initial input). Returns (violations, info).
+    probe = {"key": addresses, "input": value} (replay only): which model the solver returns depends on the history of
+    its context, so a replay process may be handed another (valid) model for the same branch. The recorded input is then
+    judged against THIS run's solver state for that branch: if the assertions under which the DSE asked for a model
+    accept it and the fresh run with it does not take the branch, the violation is reproduced."""
     src, code, labels, offs = assembled(spec)
     mode = spec_mode(spec)
     case = {"spec": spec, "backend": backend, "strategy": strat, "input": inp}
@@ -635,10 +661,6 @@ def check_one(spec, backend, strat, inp):
         if stopped != "end" or ferr:
             info["inputs_skipped_program_faults"] = 1
             return vs, info
-    # which model the solver returns depends on the history of its context: every run gets a fresh z3 context, so
-    # that a case behaves in a replay process exactly as it did in the middle of the enumeration
-    import z3
-    z3.z3._main_ctx = None
     trace, dse, err = dse_run(spec, backend, strat, inp)
     if err is not None:
         info["errors"] += 1
@@ -685,7 +707,30 @@ def check_one(spec, backend, strat, inp):
             side = "any-arm" if writes_cell(spec) or spec[0] == "straddle" else ("taken-arm" if addrs[-1] in labels.values() else "fallthrough-arm")
             vs.append(violation("solution:branch-not-taken:%s:%s:%s" % (sk, strat, side),
                                 "%s: DSE trace %s; new solution for %s gives input %#x, but a fresh run with it has the trace %s (should %s)%s" % (
-                                    ptxt, _hx(trace), _hx(addrs), newinp, _hx(ftrace), want, "; fresh run error: %s" % ferr if ferr else ""), case))
+                                    ptxt, _hx(trace), _hx(addrs), newinp, _hx(ftrace), want, "; fresh run error: %s" % ferr if ferr else ""),
+                                dict(case, solution={"key": addrs, "input": newinp})))
+    if probe is not None and not vs:
+        for key, model in sols:
+            addrs = key_addrs(loc_db, key)
+            if addrs != list(probe["key"]) or key not in dse.asked:
+                continue
+            pin = probe["input"]
+            if not accepts(dse.asked[key], spec, pin):
+                continue
+            ftrace, stopped, ferr = fresh_trace(spec, backend, pin)
+            real = [x for x in addrs if x is not None]
+            if strat == "code":
+                ok = addrs[0] in ftrace
+            elif strat == "branch":
+                ok = addrs[1] in ftrace if addrs[0] is None else any(ftrace[i] == addrs[0] and ftrace[i + 1] == addrs[1] for i in range(len(ftrace) - 1))
+            else:
+                ok = ftrace[:len(real)] == real
+            if not ok:
+                side = "any-arm" if writes_cell(spec) or spec[0] == "straddle" else ("taken-arm" if addrs[-1] in labels.values() else "fallthrough-arm")
+                vs.append(violation("solution:branch-not-taken:%s:%s:%s" % (sk, strat, side),
+                                    "%s: DSE trace %s; the assertions under which the DSE asked the solver for an input reaching %s accept the input %#x "
+                                    "(the model recorded by the enumeration; this process was handed %#x), but a fresh run with it has the trace %s" % (
+                                        ptxt, _hx(trace), _hx(addrs), pin, model_input(model, spec), _hx(ftrace)), dict(case, solution=dict(probe))))
     return vs, info
 
 
@@ -818,4 +863,4 @@ def groups_text(js):
 
 def replay(case):
     _load()
-    return check_one(list(case["spec"]), case["backend"], case["strategy"], case["input"])[0]
+    return check_one(list(case["spec"]), case["backend"], case["strategy"], case["input"], probe=case.get("solution"))[0]
